@@ -40,6 +40,8 @@ def _libs():
     if _np is None:
         import numpy, cv2
         _np, _cv2 = numpy, cv2
+        try: cv2.utils.logging.setLogLevel(cv2.utils.logging.LOG_LEVEL_SILENT)    # malformed blobs make OpenCV chatty on stderr
+        except Exception: pass
     return _np, _cv2
 
 
@@ -126,6 +128,7 @@ class Blobs:
         self.by_id = {}
         self.dumps, self.loads, self.encode, self.decode = {}, {}, {}, {}
         self.assumption_failures = []
+        self.nondict_json = False     # a part parsed as JSON but not as an object: `Frame(7)` etc. is outside the model (D = dicts)
 
     def reg(self, b):
         b = bytes(b)
@@ -147,6 +150,7 @@ class Blobs:
         try:
             v = json.loads(self.by_id[bid].decode())
             self.loads[bid] = tok_of(v) if isinstance(v, dict) else None
+            if not isinstance(v, dict): self.nondict_json = True
         except Exception:
             self.loads[bid] = None
 
@@ -398,6 +402,7 @@ def run_malformed(case):
         obs = {'frames': [[t, canon_frame_impl(d)] for t, d in post.items()]}
     except Exception as e:
         obs = {'dec_err': errname(e)}
+    if bl.nondict_json: return None, {'dec_err': 'skipped:non-dict-json-part'}
     return {'op': 'c09.decode', 'msgs': req_msgs, 'tables': bl.tables()}, obs
 
 
@@ -468,7 +473,7 @@ def gen_malformed(rng):
         if shape == 'noxtra-extra':
             msgs.append({'topic': t, 'xtra': None, 'parts': [good_data] * rng.randint(2, 3)}); continue
         if shape == 'emptyxtra':
-            msgs.append({'topic': t, 'xtra': 'emptydict', 'parts': rng.choice([[], [good_data], [dict(pixd, k='raw')], [good_data, good_data]])}); continue
+            msgs.append({'topic': t, 'xtra': 'emptydict', 'parts': rng.choice([[], [good_data], [{'k': 'hex', 'hex': 'ff00fe'}], [dict(pixd, k='raw', h=max(h, 2), w=max(w, 3))], [good_data, good_data]])}); continue
         enc = 'raw' if shape in ('rawlen',) or (shape in ('ok', 'extra', 'extra2', 'noimg', 'badjson') and rng.random() < 0.5) else 'jpg'
         img = dict(pixd, k='raw' if enc == 'raw' else 'jpg')
         x = [h, w, fmt, enc]
